@@ -648,3 +648,8 @@ _EQ3_PROPS = {'A1': 'C01,C02,C03,C10,C19', 'A2': 'C04,C03,C01,C12', 'A3': 'C05,C
 for _a, _p in _EQ3_PROPS.items():
     for _e in ('e1', 'e2', 'e3', 'e4'):
         M.append(dict(id='eqagent3-%s-%s' % (_a, _e), patch=_os.path.join(_P, 'eqagents3', '%s-%s.diff' % (_a, _e)), props=_p, expect='silent', rule=None))
+# breaking variants on top of round-3 shapes
+for _id, _props, _rule in (('withlock-next-outside', 'C03,C01', 'C03.L2'), ('singleexit-owns-no-removed-test', 'C02', 'C02.T1'), ('withlock-runs-before-lock', 'C03', 'C03.L2'),
+                           ('tagdispatch-always-false', 'C12', 'C12.F1'), ('singleexit-process-starts-true', 'C05', 'C05.B'), ('singleexit-mixins-starts-true', 'C12', 'C12.F1'),
+                           ('withlock-wrong-mutex', 'C06', 'C06.G'), ('singleexit-remove-never-true', 'C15', 'C15.P3')):
+    M.append(dict(id='eq3var-' + _id, patch=_os.path.join(_P, 'eq3var', _id + '.diff'), props=_props, expect='fire', rule=_rule))
